@@ -5,7 +5,7 @@ C = "black_it/calibrator.py"
 RR = "black_it/schedulers/round_robin.py"
 SB = "black_it/schedulers/base.py"
 
-klass("BaseSampler", fields={"batch_size": "nat", "max_deduplication_passes": "nat"})
+klass("BaseSampler", fields={"batch_size": "pos", "max_deduplication_passes": "nat"})
 klass("BaseScheduler", fields={"_samplers": "seq[opaque:BaseSampler]"},
       invariant=["len(self._samplers) >= 1"])
 klass("RoundRobinScheduler", fields={"_batch_id": "int"}, invariant=["self._batch_id >= 0"])
